@@ -97,7 +97,9 @@ type jDecl struct {
 	Options []string // enum options (short names)
 	OptDesc map[string]string
 	OptInfo map[string]map[string]string
-	Prefix  string // enum prefix override
+	// OptNumber gives an option an explicit number (number = N in its body)
+	OptNumber map[string]int32
+	Prefix    string // enum prefix override
 }
 
 type jMethod struct {
@@ -426,7 +428,8 @@ func (r *j5Renderer) enumOptions(depth int, d *jDecl) {
 	for _, o := range d.Options {
 		info := d.OptInfo[o]
 		desc := d.OptDesc[o]
-		if len(info) == 0 && !strings.Contains(desc, "\n") {
+		num, hasNum := d.OptNumber[o]
+		if len(info) == 0 && !hasNum && !strings.Contains(desc, "\n") {
 			if desc != "" {
 				r.line(depth, "option "+o+" | "+desc)
 			} else {
@@ -436,6 +439,9 @@ func (r *j5Renderer) enumOptions(depth int, d *jDecl) {
 		}
 		r.line(depth, "option "+o+" {")
 		r.descBlock(depth+1, desc)
+		if hasNum {
+			r.line(depth+1, fmt.Sprintf("number = %d", num))
+		}
 		keys := make([]string, 0, len(info))
 		for k := range info {
 			keys = append(keys, k)
